@@ -915,7 +915,11 @@ func xkbRandCase(rng *rand.Rand) xkbCase {
 		return xkbCase{Comp: "bw", Leg: "T", In: xkbIn{Pkg: xkbPick(rng, []string{"main", "main", "offsets", "x"}), Ver: xkbChars(ver), Entries: es}}
 	default:
 		in := xkbIn{Goarch: xkbPick(rng, []string{"amd64", "amd64", "arm64", "386", "amd64p32", "amd"}), Distrc: xkbPtrI(0), Buildrc: xkbPtrI(0), Work: xkbPtrB(true)}
-		if rng.Intn(4) != 0 {
+		switch rng.Intn(8) {
+		case 0: // near misses only
+			in.Dist = append(in.Dist, [2]string{"linux", in.Goarch + "p32"}, [2]string{"linuxx", in.Goarch}, [2]string{"linu", in.Goarch})
+		case 1:
+		default:
 			in.Dist = append(in.Dist, [2]string{"linux", in.Goarch})
 		}
 		for i, n := 0, rng.Intn(45); i < n; i++ {
